@@ -327,3 +327,22 @@ Definition mlp_system := mlp_system_gen mlp_result_rows.
 Definition mlp_system_orig := mlp_system_gen mlp_result_rows_orig.
 Definition mlp_order (S A : list nat) (h : list bf) (g R : list bm) (gam : Q) : list nat :=
   heur_order (S ++ A) (fst (fst (mlp_setup S h g R gam))).
+
+(* =================================================================================================
+   FactoredLP with a constant basis and NO explicit basis, AS REPAIRED by
+   fixes/C15-flp-constant-without-basis.patch: the constant basis is named by rules over state
+   factor 0 ("-r + w_const = 0" / "-(r+1) - w_const = 0" for each of its values) — exactly the rows
+   of the one-basis system  C' = [1 on factor 0]  without constant, whose weight 0 is w_const.
+   [flp_system] itself is the code for every other input (and the unrepaired code for this one:
+   1.0 / 0 is never used, no row mentions w_const).
+   ================================================================================================= *)
+Definition flp_effective (S : list nat) (C : list bf) (addConst : bool) : list bf * bool :=
+  match C, addConst with
+  | [], true => ([mkBf [0] (repeat 1%Q (nth 0 S 0))], false)
+  | _, _ => (C, addConst)
+  end.
+Definition flp_system_r (S : list nat) (C b : list bf) (addConst : bool) (order : list nat) : list row * nat :=
+  flp_system S (fst (flp_effective S C addConst)) b (snd (flp_effective S C addConst)) order.
+Definition flp_rows_r S C b addConst order : list row := fst (flp_system_r S C b addConst order).
+Definition flp_order_r (S : list nat) (C b : list bf) (addConst : bool) : list nat :=
+  flp_order S (fst (flp_effective S C addConst)) b (snd (flp_effective S C addConst)).
